@@ -823,6 +823,7 @@ def slot_program(rng, hostile: float) -> str:
 # boundary at once, and with every trivia at each single terminator boundary (the others default to newline).
 
 SKEL_TRIVIA = ['\n', ' ', '\t', '  ', ' \\\n', ' # c\n', ' \\ # c\n  ', '\n\n  ']
+SKEL_SINGLE = [' ', ' \\\n', '\t', ' # c\n', '  ']     # trivia varied at one boundary at a time
 
 
 def _bodies(blocks: int, depth: int, maxitems: int = 3) -> T.Iterator[T.Tuple[T.Tuple, int]]:
@@ -901,7 +902,7 @@ def render_skeleton(toks: T.List[str], trivia_at: T.Dict[int, str], default: str
     return out
 
 
-def skeleton_texts(max_blocks: int = 2, depth: int = 3, maxitems: int = 3, single: bool = True) -> T.Iterator[str]:
+def skeleton_texts(max_blocks: int = 2, depth: int = 3, maxitems: int = 3, single: int = 5) -> T.Iterator[str]:
     """every skeleton x (one trivia at all terminator boundaries | one trivia at one boundary, newline elsewhere)"""
     seen = set()
     for body, _used in _bodies(max_blocks, depth, maxitems):
@@ -916,7 +917,7 @@ def skeleton_texts(max_blocks: int = 2, depth: int = 3, maxitems: int = 3, singl
             variants += [v + '\n', v]
         if single:
             for k in range(nb):
-                for tr in SKEL_TRIVIA[1:6]:
+                for tr in SKEL_SINGLE[:single]:
                     variants.append(render_skeleton(toks, {k: tr}, '\n') + '\n')
         for txt in variants:
             if txt not in seen:
@@ -942,6 +943,9 @@ def make_tracer(mparser):
             r = orig(self, *a, **k)
             if self.current_ws:
                 hits.add('current_ws non-empty at exit of ' + name)
+                if self.current.tid not in ('eol', 'eof'):
+                    hits.add('current_ws non-empty at exit of ' + name + ' with a non-newline token next (' +
+                             ('block terminator' if self.current.tid in ('endif', 'endforeach', 'else', 'elif') else 'other') + ')')
             if getattr(self, 'in_ternary', False):
                 hits.add('in_ternary set at exit of ' + name)
             return r
@@ -1155,10 +1159,10 @@ def run(ctx: Ctx) -> None:
         ctx.obligation_failed('grammar-table', 'parser productions without an entry in the generator grammar: ' + ', '.join(missing))
     # all skeletons with <= 2 block constructs (every shape, depth <= 2) with the trivia alphabet at each terminator
     # boundary; the deep tier adds all skeletons with <= 3 constructs, depth <= 3, one item per body
-    skel = list(skeleton_texts(2, 3, 3, True))
+    skel = list(skeleton_texts(2, 3, 3, ctx.scale(2, 5)))
     if ctx.deep:
         have = set(skel)
-        skel += [t for t in skeleton_texts(3, 3, 1, True) if t not in have]
+        skel += [t for t in skeleton_texts(3, 3, 1, 5) if t not in have]
     ctx.tag('skeleton-texts', len(skel))
     for ch in chunks(skel, 4000):
         jobs.append(('nesting-skeletons', _job_codes, ch))
